@@ -97,6 +97,11 @@ func VF_C18_a_stream() {
 	vf.Observe("wire", p.Buf)
 }
 
+// C18.a (sequence on one connection): the same obligation for nMsg >= 2 messages written through ONE writer (the writer's
+// scratch header buffer is reused between messages, so every header field of message i+1 must be rewritten whatever
+// message i held) — all fields of all messages symbolic and independent.
+func VF_C18_a_stream_seq() { VF_C18_a_stream() }
+
 // C18.a (writer checks): WriteMsg refuses a message whose Length() disagrees with its payload or exceeds
 // MaxPayloadLength and then writes nothing; otherwise it emits exactly header+payload.
 func VF_C18_a_write() {
